@@ -538,6 +538,14 @@ class EvalCallback(EventCallback):
         """
         if self.callback:
             self.callback.update_locals(locals_)
+        if self.callback_on_new_best is not None:
+            self.callback_on_new_best.update_locals(locals_)
+
+    def _on_training_start(self) -> None:
+        super()._on_training_start()
+        # ``callback_on_new_best`` is a child too: give it the training-start event
+        if self.callback_on_new_best is not None:
+            self.callback_on_new_best.on_training_start(self.locals, self.globals)
 
 
 class StopTrainingOnRewardThreshold(BaseCallback):
